@@ -47,7 +47,7 @@ inductive Storage (α : Type) where
   | iprange (p : PRange Int)
   | fprange (p : PRange α)
   | str (s : String)
-deriving Repr
+deriving Repr, DecidableEq
 
 /-- the declared domain of whatever is stored (strings and the empty parameter are unconstrained) -/
 def Storage.InDomain {α : Type} [LT α] [LE α] [IsFinite α] : Storage α → Prop
@@ -337,5 +337,15 @@ def requested (s : Storage α) : Op α → Option (Res α)
   | _ => none
 
 end
+
+/-- the constructor accepts the stored default again (through the regenerated guards) -/
+def constructible : Storage XF → Bool
+  | .mono => true
+  | .str _ => true
+  | .enum p => !(updateEnum p p.value).2
+  | .irange p => !(updateRange (fun (x : Int) => x) p p.value).2
+  | .frange p => !(updateRange (fun (x : XF) => x) p p.value).2
+  | .iprange p => !(updatePair (fun (x : Int) => x) p p.value1 p.value2).2
+  | .fprange p => !(updatePair (fun (x : XF) => x) p p.value1 p.value2).2
 
 end NanoVerif.Param
